@@ -31,7 +31,7 @@ THEOREMS = [
     'Pyiga.Props.C10.out_of_range_error',
     'Pyiga.Props.C10.combine_bcs_ok',
     'Pyiga.Props.C10.combine_bcs_spec',
-    'Pyiga.Props.C10.combine_bcs_value',
+    'Pyiga.Props.C10.combine_bcs_value', 'Pyiga.Props.C10.combine_bcs_indices_order_independent',
     'Pyiga.Props.C10.blocked_numbering_injective',
     'Pyiga.Props.C10.dirichlet_bcs_once',
     'Pyiga.Props.C10.multipatch_bcs_once',
